@@ -24,7 +24,7 @@ SCRATCH = "/tmp/mut_E3_out"
 
 # (name, kind, file, [(old text, new text)], Props id, expectation)
 MUTATIONS = [
-    ("unchanged", "control", None, [], "C17 C19 C18 C09 C14 C10 C02 C20 C11 C03 C12 C13 C15 C16", "all pass"),
+    ("unchanged", "control", None, [], "C17 C19 C18 C09 C14 C10 C02 C20 C11 C03 C12 C13 C15 C16 C01", "all pass"),
     # ---- meaning-changing edits (the brief's four, plus further ones)
     ("max_bond_length: or -> and", "breaking", "mofun/detect_bonds.py",
      [("if el1 in NON_METALS or el2 in NON_METALS:", "if el1 in NON_METALS and el2 in NON_METALS:")], "C17", "fail"),
@@ -191,8 +191,10 @@ MUTATIONS = [
      [("sorted_indices = sorted({i % num_atoms for i in indices}, reverse=True)", "sorted_indices = sorted([i % num_atoms for i in indices], reverse=True)")], "C10", "fail"),
     ("__delitem__: ascending instead of descending", "breaking", "mofun/atoms.py",
      [("sorted_indices = sorted({i % num_atoms for i in indices}, reverse=True)", "sorted_indices = sorted({i % num_atoms for i in indices}, reverse=False)")], "C10", "fail"),
-    ("__delitem__: comprehension variable renamed, len(self) inlined", "neutral", "mofun/atoms.py",
-     [("sorted_indices = sorted({i % num_atoms for i in indices}, reverse=True)", "sorted_indices = sorted({k % len(self) for k in indices}, reverse=True)")], "C10", "pass"),
+    ("__delitem__: comprehension variable renamed", "neutral", "mofun/atoms.py",
+     [("sorted_indices = sorted({i % num_atoms for i in indices}, reverse=True)", "sorted_indices = sorted({k % num_atoms for k in indices}, reverse=True)")], "C10", "pass"),
+    ("__delitem__: len(self) read AFTER the per-atom arrays were shortened (seeded/C10-u1)", "breaking", "mofun/atoms.py",
+     [("sorted_indices = sorted({i % num_atoms for i in indices}, reverse=True)", "sorted_indices = sorted({i % len(self) for i in indices}, reverse=True)")], "C10", "fail"),
     ("extend: REVERT 5777e16 (structure_index_map no longer normalised)", "breaking", "mofun/atoms.py",
      [("        structure_index_map = {plain_index(k, len(other)): plain_index(v, len(self))\n                               for k, v in structure_index_map.items()}\n", "")], "C11", "fail"),
     ("extend: plain_index returns i unchanged", "breaking", "mofun/atoms.py", [("            return i % n\n", "            return i\n")], "C11", "fail"),
@@ -235,6 +237,25 @@ MUTATIONS = [
      [("np.meshgrid([-1, 0, 1],[-1, 0, 1],[-1, 0, 1])", "np.meshgrid([0, 1],[0, 1],[0, 1])")], "C17", "fail"),
     ("uc_neighbor_offsets: comprehension variable renamed", "neutral", "mofun/mofun.py",
      [("np.array([np.matmul(uc_vectors.T, mult[0]) for mult in multipliers])", "np.array([np.matmul(uc_vectors.T, m[0]) for m in multipliers])")], "C17", "pass"),
+    ("find: REVERT 8e95ae1 (final check with numpy's default rtol)", "breaking", "mofun/mofun.py",
+     [("if np.allclose(atom_positions, chk_pattern.positions, rtol=0, atol=atol):", "if np.allclose(atom_positions, chk_pattern.positions, atol=atol):")], "C01", "fail"),
+    ("find: final check with twice the tolerance", "breaking", "mofun/mofun.py",
+     [("if np.allclose(atom_positions, chk_pattern.positions, rtol=0, atol=atol):", "if np.allclose(atom_positions, chk_pattern.positions, rtol=0, atol=2*atol):")], "C01", "fail"),
+    ("find: REVERT f8394e0 (a structure atom may be used twice in a match)", "breaking", "mofun/mofun.py",
+     [("if near_types[atom_idx] == pattern_elements[i] and near_indices[atom_idx] % len(structure) not in uc_atoms_in_match:", "if near_types[atom_idx] == pattern_elements[i]:")], "C01", "fail"),
+    ("find: the images of a used atom are not excluded (no % len(structure))", "breaking", "mofun/mofun.py",
+     [("uc_atoms_in_match = {near_indices[m] % len(structure) for m in match}", "uc_atoms_in_match = {near_indices[m] for m in match}")], "C01", "fail"),
+    ("find: keyword arguments of the final check exchanged in order, comprehension variable renamed", "neutral", "mofun/mofun.py",
+     [("if np.allclose(atom_positions, chk_pattern.positions, rtol=0, atol=atol):", "if np.allclose(atom_positions, chk_pattern.positions, atol=atol, rtol=0):"),
+      ("uc_atoms_in_match = {near_indices[m] % len(structure) for m in match}", "uc_atoms_in_match = {near_indices[k] % len(structure) for k in match}")], "C01", "pass"),
+    ("near window: REVERT 517adff (atoms outside the cell are not brought home)", "breaking", "mofun/mofun.py",
+     [("        cells_away = np.floor(home_positions.dot(np.linalg.inv(cell)) + 1e-9)\n        home_positions = home_positions - cells_away.dot(cell)\n", "        pass\n")], "C01", "fail"),
+    ("near window: cells_away without the 1e-9", "breaking", "mofun/mofun.py",
+     [("cells_away = np.floor(home_positions.dot(np.linalg.inv(cell)) + 1e-9)", "cells_away = np.floor(home_positions.dot(np.linalg.inv(cell)))")], "C01", "fail"),
+    ("near window: home image ADDED instead of subtracted", "breaking", "mofun/mofun.py",
+     [("home_positions = home_positions - cells_away.dot(cell)", "home_positions = home_positions + cells_away.dot(cell)")], "C01", "fail"),
+    ("near window: cell.dot(cells_away) (columns instead of rows)", "breaking", "mofun/mofun.py",
+     [("home_positions = home_positions - cells_away.dot(cell)", "home_positions = home_positions - cell.dot(cells_away)")], "C01", "fail"),
     # ---- leaving the subset
     ("max_bond_length: while loop added (outside the subset)", "unsupported", "mofun/detect_bonds.py",
      [('    """Return the maximum length of a bond between two elements"""\n', '    while False:\n        pass\n')], "C17", "Unsupported"),
